@@ -293,6 +293,12 @@ def _build_sbeppc(kind="plain"):
         "san": ["-O1", "-g", "-fsanitize=address,undefined", "-fno-sanitize-recover=undefined",
                 "-D_GLIBCXX_ASSERTIONS", "-fno-omit-frame-pointer"],
     }
+    # development aid (tools/coverage.py): VERIF_SBEPPC_COV=1 builds the `plain`
+    # flavour with gcov instrumentation, so that a run of the checks shows which
+    # lines of sbeppc no explored schema reaches.  Never set by a check.
+    if kind == "plain" and os.environ.get("VERIF_SBEPPC_COV") == "1":
+        kind = "cov"
+        flagsets["cov"] = ["-O0", "-g0", "-DNDEBUG", "--coverage", "-fprofile-update=atomic"]
     flags = flagsets[kind]
     key = sha(kind, " ".join(flags), file_hash(srcs))
     bdir = ensure_dir(os.path.join(CACHE, "sbeppc"))
